@@ -1,5 +1,7 @@
 //! The command line as a whole: opts.rs `parse_args` vs Frrs/Cli.lean `parseArgs` (C07 clean-up default, C11 dry run,
-//! C16 selectors are normalised, and the glue that carries every option value into `Options`).
+//! C16 selectors are normalised, and the glue that carries every option value into `Options`), and for the accepted lines
+//! the command lines of the exporter and the importer: pipes.rs `build_fast_export_cmd` / `build_fast_import_cmd` vs
+//! Frrs/Pipes.lean `exportCmd` / `importCmd`.
 //! `parse_args` reads `std::env::args`, probes git and ends the process on refused values, so every case runs the real
 //! function in a child process: the harness binary `optsprobe`, whose own arguments are the tool's command line, started in
 //! an empty directory with the debug / stage-3 / config environment variables removed.
@@ -52,8 +54,12 @@ fn tally(key: String) {
     if let Some(e) = t.iter_mut().find(|e| e.0 == key) { e.1 += 1; } else { t.push((key, 1)); }
 }
 
+fn section<'a>(reply: &'a str, key: &str) -> Option<&'a str> {
+    reply.split('|').skip(1).find_map(|kv| kv.strip_prefix(key).and_then(|r| r.strip_prefix('=')))
+}
+
 fn field<'a>(reply: &'a str, key: &str) -> Option<&'a str> {
-    reply.strip_prefix("ok ")?.split(';').find_map(|kv| kv.strip_prefix(key).and_then(|r| r.strip_prefix('=')))
+    reply.strip_prefix("ok ")?.split('|').next()?.split(';').find_map(|kv| kv.strip_prefix(key).and_then(|r| r.strip_prefix('=')))
 }
 
 pub fn suite() -> Simple {
@@ -68,6 +74,15 @@ pub fn suite() -> Simple {
             let reply = run_probe(argv);
             tally(format!("outcome-{}", reply.split(' ').next().unwrap_or("")));
             tally(format!("words-{}", argv.len().min(9)));
+            match section(&reply, "export") {
+                Some("err") => tally("exporter-refused".into()),
+                Some(e) => {
+                    let l = dec_list(e).unwrap_or_default();
+                    if l.iter().any(|a| a == b"--no-data") { tally("exporter-with-no-data".into()); }
+                    if l.first().is_some_and(|a| a == b"cat") { tally("exporter-replaced-by-a-stream-file".into()); }
+                }
+                None => {}
+            }
             if let Some(c) = field(&reply, "cleanup") { tally(format!("cleanup-{c}")); }
             for (k, label) in [("dry", "dry-run"), ("partial", "partial"), ("debug", "debug-mode"), ("analyze", "analyze")] {
                 if field(&reply, k) == Some("1") { tally(format!("ok-with-{label}")); }
@@ -98,6 +113,23 @@ pub fn suite() -> Simple {
             // C11: a line that starts with --dry-run is a dry run
             if argv.first().map(|a| a.as_slice()) == Some(b"--dry-run") && field(r, "dry") != Some("1") {
                 return Some(format!("[C11] `{shown}`: --dry-run was given first and the run is not a dry run"));
+            }
+            // C05/C07: a run with --replace-text (and no explicit --no-data) is fed blob contents
+            if let Some(exp) = section(r, "export").and_then(dec_list) {
+                let has = |w: &[u8]| exp.iter().any(|a| a == w);
+                if field(r, "rtext") != Some("none") && field(r, "nodata") == Some("0") && field(r, "fe") == Some("none") && has(b"--no-data")
+                    && !argv.iter().any(|a| a == b"--no-data") {
+                    return Some(format!("[C05] `{shown}`: --replace-text is given, --no-data is not, and the exporter is started with --no-data (no blob would reach the rules)"));
+                }
+                if field(r, "fe") == Some("none") && !has(b"--use-done-feature") {
+                    return Some(format!("[C10] `{shown}`: the exporter is started without --use-done-feature"));
+                }
+            }
+            // C08/C01/C15: the importer never folds case
+            if let Some(imp) = section(r, "import").and_then(dec_list) {
+                let pos = imp.iter().position(|a| a == b"fast-import");
+                let ok = pos.is_some_and(|p| p >= 2 && imp[p - 2] == b"-c" && imp[p - 1] == b"core.ignorecase=false");
+                if !ok { return Some(format!("[C08] `{shown}`: the importer is not started with -c core.ignorecase=false before fast-import")); }
             }
             let _ = Regex::new("x");
             None
@@ -138,7 +170,43 @@ fn flag1(rng: &mut Rng) -> (&'static str, &'static [&'static str]) {
     }
 }
 
+/// lines about what the exporter is asked for: content rules, size/id filters, --no-data, same or separate target
+fn gen_pipes(rng: &mut Rng) -> Args {
+    let mut v: Vec<String> = Vec::new();
+    let add = |v: &mut Vec<String>, words: &[&str]| { for w in words { v.push(w.to_string()); } };
+    if rng.chance(1, 2) { add(&mut v, &["--replace-text", "rules.txt"]); }
+    if rng.chance(1, 2) { add(&mut v, &["--max-blob-size", *rng.pick(&["10", "1K", "0"][..])]); }
+    if rng.chance(1, 3) { add(&mut v, &["--strip-blobs-with-ids", "ids.txt"]); }
+    if rng.chance(1, 4) { add(&mut v, &["--replace-message", "msgs.txt"]); }
+    if rng.chance(1, 5) { add(&mut v, &["--no-data"]); }
+    if rng.chance(1, 3) { add(&mut v, &["--dry-run"]); }
+    if rng.chance(1, 4) { add(&mut v, &["--quiet"]); }
+    if rng.chance(1, 4) { add(&mut v, &["--refs", *rng.pick(&["main", "--no-data", "v1..v2"][..])]); }
+    match rng.below(5) {
+        0 => add(&mut v, &["--source", "repo", "--target", "repo"]),
+        1 => add(&mut v, &["--source", "repo", "--target", "other"]),
+        2 => add(&mut v, &["--target", "."]),
+        3 => add(&mut v, &["--target", "./"]),
+        _ => {}
+    }
+    if rng.chance(1, 3) {
+        add(&mut v, &["--debug-mode"]);
+        for f in ["--date-order", "--no-reencode", "--no-mark-tags", "--mark-tags", "--no-quotepath"] { if rng.chance(1, 4) { add(&mut v, &[f]); } }
+        if rng.chance(1, 6) { add(&mut v, &["--fe_stream_override", "stream.fe"]); }
+    }
+    // shuffle whole flags (a flag and its value stay together)
+    let mut groups: Vec<Vec<String>> = Vec::new();
+    let mut i = 0;
+    while i < v.len() {
+        let takes = matches!(v[i].as_str(), "--replace-text" | "--max-blob-size" | "--strip-blobs-with-ids" | "--replace-message" | "--refs" | "--source" | "--target" | "--fe_stream_override");
+        if takes && i + 1 < v.len() { groups.push(vec![v[i].clone(), v[i + 1].clone()]); i += 2; } else { groups.push(vec![v[i].clone()]); i += 1; }
+    }
+    for k in (1..groups.len()).rev() { let j = rng.below(k + 1); groups.swap(k, j); }
+    groups.into_iter().flatten().map(|s| s.into_bytes()).collect()
+}
+
 pub fn gen(rng: &mut Rng) -> (Args, bool) {
+    if rng.chance(1, 4) { return (gen_pipes(rng), true); }
     let mut v: Vec<String> = Vec::new();
     let n = rng.below(7);
     let risky = rng.chance(1, 3);           // lines with values that are likely refused
@@ -167,7 +235,7 @@ pub fn gen(rng: &mut Rng) -> (Args, bool) {
 pub fn run(tier: &str, seed: u64, model: &mut Model) -> Vec<Suite> {
     let n = if tier == "thorough" { 12_000 } else { 1_200 };
     let mut rng = Rng::new(seed ^ 0xC1A5);
-    let mut rep = Suite::new("cliargs", &format!("{n} command lines of 0 to 8 options drawn from every flag of parse_args (30 without a value, 39 with one, the --cleanup look-ahead, --cleanup=<mode>, --config in both spellings, help/version, unknown words), values from per-flag pools of accepted and refused spellings (paths with backslashes, absolute, with dot segments, drive letters; OLD:NEW with zero to two colons; sizes around 2^64; durations; timestamps; modes; integers with underscores and signs; valid and invalid regexes), another flag or a clean-up word in the place of a value, a missing last value, --debug-mode anywhere on half of the lines. Each line is parsed by the real parse_args in a child process (the optsprobe binary, empty directory, debug/config environment removed) and by Cli.parseArgs; the 51 fields of the resulting Options, or the way the process ends, must agree. Non-trivial: every case."));
+    let mut rep = Suite::new("cliargs", &format!("{n} command lines of 0 to 8 options drawn from every flag of parse_args (30 without a value, 39 with one, the --cleanup look-ahead, --cleanup=<mode>, --config in both spellings, help/version, unknown words), values from per-flag pools of accepted and refused spellings (paths with backslashes, absolute, with dot segments, drive letters; OLD:NEW with zero to two colons; sizes around 2^64; durations; timestamps; modes; integers with underscores and signs; valid and invalid regexes), another flag or a clean-up word in the place of a value, a missing last value, --debug-mode anywhere on half of the lines. A quarter of the lines are about what the exporter is asked for (content rules, size and id filters, --no-data, same or separate --source/--target, --dry-run, the debug-only exporter switches, in shuffled order). Each line is parsed by the real parse_args in a child process (the optsprobe binary, empty directory, debug/config environment removed) and by Cli.parseArgs; the 51 fields of the resulting Options, or the way the process ends, must agree, and for accepted lines so must the command lines build_fast_export_cmd / build_fast_import_cmd produce (Pipes.exportCmd / importCmd; the importer's --export-marks path is left out). Non-trivial: every case."));
     let def = suite();
     // the outcomes seen, for the evidence
     let mut cases: Vec<(Args, bool)> = Vec::with_capacity(n);
